@@ -88,6 +88,10 @@ class Par(param.Parameterized):
     def on_a_free(self):
         self.log.append(("on_a_free", self.a, self.free))
 
+    @param.depends("a:bounds", watch=True)
+    def on_bounds(self):
+        self.log.append(("on_bounds", self.param.a.bounds))
+
     @param.depends("sub.x", watch=True)
     def on_subx(self):
         self.log.append(("on_subx", self.sub.x if self.sub is not None else None))
@@ -114,6 +118,10 @@ class ParNoSubDep(param.Parameterized):
     @param.depends("a", "free", watch=True)
     def on_a_free(self):
         self.log.append(("on_a_free", self.a, self.free))
+
+    @param.depends("a:bounds", watch=True)
+    def on_bounds(self):
+        self.log.append(("on_bounds", self.param.a.bounds))
 
 
 def user_cb(*events):
